@@ -350,6 +350,12 @@ def run(rep: Report, tier: str) -> None:
         where=loc(init.node),
     )
 
+    # ---------------------------------------------------------------- C03.f
+    from . import c11
+
+    rf = rep.rule("C03.f", "no parsed row is dropped on its way into the transaction sets (row handler adds exactly one transaction per row)", floor=3)
+    c11.check_handler_paths(rep, rf)
+
     # ---------------------------------------------------------------- C03.e
     r = rep.rule("C03.e", "amount to match per class: IN crypto_in, OUT crypto_out_with_fee, INTRA sent - received", floor=3)
     want = {"in": "InTransaction.__crypto_in", "out": "OutTransaction.__crypto_out_with_fee"}
